@@ -79,8 +79,8 @@ func (txn *Txn) rangeWrite(fn func(commitID uint64, chunk commit.Chunk, fill bit
 	lock := txn.owner.slock
 	txn.dirty.Range(func(x uint32) {
 		chunk := commit.Chunk(x)
-		commitID := commit.Next()
 		lock.Lock(uint(chunk))
+		commitID := commit.Next() // drawn under the latch, so ids follow the apply order
 
 		// Compute the fill and set the last commit ID
 		txn.owner.lock.RLock()
